@@ -12,7 +12,9 @@ CONSTANTS Kind,       \* "queue" | "stack" | "list"
           Elems,      \* element ids (positive integers)
           MaxLen,     \* bound on the content length
           HasDtor,    \* container created with an element destructor
-          HasCmp      \* list created with a comparator (elements e, f compare equal iff KeyOf(e) = KeyOf(f))
+          HasCmp,     \* list created with a comparator (elements e, f compare equal iff KeyOf(e) = KeyOf(f))
+          CmpSucc     \* ... a comparator that is not reflexive: the searched datum d matches the elements x with KeyOf(x) = KeyOf(d) + 1
+                      \* (removal / search by pointer must still work: "matching the comparator or the pointer")
 
 VARIABLES items, it, fate, obs,
           vis, bad       \* ghost: elements designated by the cursor in this iterator session; monitor flag
@@ -80,7 +82,7 @@ Remove == /\ Kind \in {"queue", "stack"} /\ Mut
                     /\ fate' = [fate EXCEPT ![Head(items)] = Gone]
           /\ UNCHANGED <<it, vis, bad>>
 
-Match(d, x) == (d = x) \/ (HasCmp /\ KeyOf(d) = KeyOf(x))
+Match(d, x) == (d = x) \/ (HasCmp /\ IF CmpSucc THEN KeyOf(x) = KeyOf(d) + 1 ELSE KeyOf(d) = KeyOf(x))
 FirstMatch(d) == IF \E i \in 1..Len(items) : Match(d, items[i])
                    THEN CHOOSE i \in 1..Len(items) : Match(d, items[i]) /\ \A j \in 1..(i - 1) : ~Match(d, items[j])
                    ELSE 0
